@@ -70,6 +70,7 @@ type fnInfo struct {
 	pkg      string // alias
 	leanName string // Gen.Types.Currency.Add
 	impure   bool
+	usesExt  bool   // takes the package's Ext structure as first parameter
 	ptrMut   []bool // per param (receiver first): mutated through pointer
 	deps     []string
 	body     string
@@ -110,10 +111,16 @@ type tcode struct {
 	vorder  []string
 	work    []string
 	anonOf  map[*types.Struct]*structInfo // modelled anonymous struct types
+	// regions (tregion.go)
+	regions    map[string]*regionInfo
+	isRegion   map[string]*regionInfo
+	closureKey map[*types.Var]string
+	exts       map[string]map[string]string // alias → ext field → Lean type
 }
 
 func newTcode(L *loader) *tcode {
-	return &tcode{L: L, fns: map[string]*fnInfo{}, structs: map[string]*structInfo{}, vars: map[string]*varInfo{}}
+	return &tcode{L: L, fns: map[string]*fnInfo{}, structs: map[string]*structInfo{}, vars: map[string]*varInfo{},
+		regions: map[string]*regionInfo{}, isRegion: map[string]*regionInfo{}, closureKey: map[*types.Var]string{}, exts: map[string]map[string]string{}}
 }
 
 type terr struct{ msg string }
@@ -380,6 +387,9 @@ func (si *structInfo) hasField(name string) bool {
 // ---------------------------------------------------------------- functions
 
 func (t *tcode) objKey(obj types.Object) string {
+	if v, ok := obj.(*types.Var); ok {
+		return t.closureKey[v] // "" unless a sibling closure of a translated region
+	}
 	fn, ok := obj.(*types.Func)
 	if !ok || fn.Pkg() == nil {
 		return ""
@@ -547,6 +557,38 @@ func (t *tcode) computeImpure() {
 	for key, fi := range t.fns {
 		fi.impure = direct[key]
 	}
+	// which definitions need the Ext structure
+	ext := map[string]bool{}
+	for key, fi := range t.fns {
+		ast.Inspect(fi.decl.Body, func(n ast.Node) bool {
+			if c, ok := n.(*ast.CallExpr); ok {
+				if obj := t.calleeObj(c); obj != nil {
+					if _, ok := extFuncs[t.objKey(obj)]; ok {
+						ext[key] = true
+					}
+				}
+			}
+			return true
+		})
+	}
+	for changed := true; changed; {
+		changed = false
+		for key := range t.fns {
+			if ext[key] {
+				continue
+			}
+			for _, c := range calls[key] {
+				if ext[c] {
+					ext[key] = true
+					changed = true
+					break
+				}
+			}
+		}
+	}
+	for key, fi := range t.fns {
+		fi.usesExt = ext[key]
+	}
 }
 
 func (t *tcode) calleeObj(c *ast.CallExpr) types.Object {
@@ -620,6 +662,9 @@ func (t *tcode) discover() {
 // calls whose result is an `error` built from formatting: modelled as an opaque
 // non-nil error value.
 func (t *tcode) opaqueCall(key string) bool {
+	if _, ok := extFuncs[key]; ok {
+		return true
+	}
 	switch key {
 	case coreMod + "/rhp/v4.NewRPCError", coreMod + "/rhp/v4.ErrorCode.String":
 		return true
@@ -777,6 +822,11 @@ func (e *emitter) expr(x ast.Expr, h *hoist) string {
 		e.t.fail(x, "unsupported selector")
 	case *ast.StarExpr:
 		return e.expr(x.X, h)
+	case *ast.SliceExpr:
+		if x.Low == nil && x.High == nil && x.Max == nil {
+			return e.expr(x.X, h) // x[:] — same contents
+		}
+		e.t.fail(x, "slice expression with bounds")
 	case *ast.UnaryExpr:
 		T := e.typeOf(x)
 		switch x.Op {
@@ -1060,10 +1110,34 @@ func (e *emitter) call(x *ast.CallExpr, h *hoist, ptrTargets *[]ast.Expr) string
 		}
 		return e.hoistCall(h, ex.lean+" "+strings.Join(args, " "), ex.impure)
 	}
+	if field, ok := extFuncs[key]; ok {
+		// external function: a field of the package's Ext structure (tregion.go)
+		if !e.fi.usesExt {
+			e.t.fail(x, "call to external %s outside a translated region", key)
+		}
+		fn := obj.(*types.Func)
+		e.t.extUse(e.fi.pkg, field, fn.Type().(*types.Signature), x)
+		var args []string
+		if sel, ok := x.Fun.(*ast.SelectorExpr); ok {
+			if _, isMethod := info.Selections[sel]; isMethod {
+				args = append(args, e.atom(e.expr(sel.X, h)))
+			}
+		}
+		for _, a := range x.Args {
+			args = append(args, e.atom(e.expr(a, h)))
+		}
+		return "(ext." + field + " " + strings.Join(args, " ") + ")"
+	}
 	if _, isCore := e.t.L.funcs[key]; !isCore || e.t.opaqueCall(key) {
 		// opaque helpers: formatting and error construction
 		if isErrorType(resT) {
 			name := key[strings.LastIndex(key, "/")+1:]
+			if e.t.isRegion[e.fi.key] != nil && len(x.Args) > 0 {
+				// inside a region the error value is the literal format string
+				if tv, ok := info.Types[x.Args[0]]; ok && tv.Value != nil && tv.Value.Kind() == constant.String {
+					name = constant.StringVal(tv.Value)
+				}
+			}
 			return fmt.Sprintf("(some %q : Option String)", name)
 		}
 		if b, ok := resT.Underlying().(*types.Basic); ok && b.Kind() == types.String {
@@ -1075,6 +1149,20 @@ func (e *emitter) call(x *ast.CallExpr, h *hoist, ptrTargets *[]ast.Expr) string
 	e.deps[callee.leanName] = true
 	var args []string
 	var argExprs []ast.Expr
+	if callee.usesExt {
+		if !e.fi.usesExt || callee.pkg != e.fi.pkg {
+			e.t.fail(x, "call to %s, which needs external functions, from a definition without them", key)
+		}
+		args = append(args, "ext")
+	}
+	nfree := 0
+	if ri := e.t.isRegion[key]; ri != nil {
+		// a sibling closure: its captured variables are in scope here under their own names
+		for _, v := range ri.frees {
+			args = append(args, sanitize(v.Name()))
+		}
+		nfree = len(ri.frees)
+	}
 	if sel, ok := x.Fun.(*ast.SelectorExpr); ok {
 		if _, isMethod := info.Selections[sel]; isMethod {
 			argExprs = append(argExprs, sel.X)
@@ -1082,7 +1170,8 @@ func (e *emitter) call(x *ast.CallExpr, h *hoist, ptrTargets *[]ast.Expr) string
 	}
 	argExprs = append(argExprs, x.Args...)
 	anyPtr := false
-	for i, a := range argExprs {
+	for i0, a := range argExprs {
+		i := i0 + nfree
 		if i < len(callee.ptrMut) && callee.ptrMut[i] {
 			anyPtr = true
 			// must be &ident or an identifier that is itself a pointer parameter
@@ -1312,6 +1401,11 @@ func (e *emitter) stmts(sb *strings.Builder, list []ast.Stmt, n int) {
 		}
 		sig := e.t.L.info.Defs[e.fi.decl.Name].Type().(*types.Signature)
 		if sig.Results().Len() > 0 && len(e.resNames) == 0 {
+			if e.t.isRegion[e.fi.key] != nil && sig.Results().Len() == 1 && isErrorType(sig.Results().At(0).Type()) {
+				// a region that is left without an early return: no error
+				sb.WriteString(e.ind(n) + e.retExpr([]string{"(none : Option String)"}) + "\n")
+				return
+			}
 			panic(terr{e.fi.pos + ": control reaches end of function without return"})
 		}
 		sb.WriteString(e.ind(n) + e.retExpr(vals) + "\n")
@@ -1822,6 +1916,10 @@ func (t *tcode) emitFn(fi *fnInfo) {
 	decl := fi.decl
 	sig := t.L.info.Defs[decl.Name].Type().(*types.Signature)
 	var params []string
+	if fi.usesExt {
+		params = append(params, "(ext : Gen."+fi.pkg+".Ext)")
+		e.deps["Gen."+fi.pkg+".Ext"] = true
+	}
 	idx := 0
 	addParam := func(name *ast.Ident, T types.Type) {
 		lt, ok := t.leanType(T)
@@ -1934,6 +2032,14 @@ func (t *tcode) run(roots []string) (map[string]string, []map[string]any, []stri
 			errs = append(errs, "T-code root not found in source: "+r)
 		}
 	}
+	for _, spec := range regionRoots {
+		ri, e := t.ensureRegion(spec)
+		if ri == nil {
+			errs = append(errs, "T-code region "+spec.fn+"_"+spec.name+": "+e)
+			continue
+		}
+		t.ensureFn(ri.key, nil)
+	}
 	t.discover()
 	t.computeImpure()
 	keys := make([]string, 0, len(t.fns))
@@ -1995,6 +2101,9 @@ func (t *tcode) run(roots []string) (map[string]string, []map[string]any, []stri
 			}
 			report = append(report, map[string]any{"func": fi.key, "lean": fi.leanName, "pos": fi.pos, "ok": true, "impure": fi.impure})
 			items = append(items, item{fi.leanName, fmt.Sprintf("/-- %s (%s) -/\n%s\n%s", fi.key, fi.pos, fi.sig, fi.body), fi.deps})
+		}
+		if es := t.extStruct(alias); es != "" {
+			items = append(items, item{"Gen." + alias + ".Ext", es, nil})
 		}
 		// topo sort
 		done := map[string]bool{}
